@@ -23,9 +23,11 @@ Record config := mkcfg { cycle : Z; window : Z; tol : Z; epoch : Z }.
 
 (** NewWindowCalculator: a window that is not shorter than the cycle is
     replaced by a sixth of the cycle. *)
+Definition norm_divisor : Z := 6.
+
 Definition normalize (c : config) : config :=
   if cycle c <=? window c
-  then mkcfg (cycle c) (Z.quot (cycle c) 6) (tol c) (epoch c)
+  then mkcfg (cycle c) (Z.quot (cycle c) norm_divisor) (tol c) (epoch c)
   else c.
 
 (** seedFromAgentID *)
